@@ -436,6 +436,8 @@ class AccessorEval:
             raise NotSymbolic("accessor recursion")
         local = dict(env)
         local[func.posparams[0]] = rec
+        saved_mod = getattr(self, "module", None)
+        self.module = func.module
         try:
             self._block(func.body, local)
             return None
@@ -443,6 +445,7 @@ class AccessorEval:
             return r.value
         finally:
             self.depth -= 1
+            self.module = saved_mod
 
     def run_free(self, func, args, kwargs):
         """A module-level helper called from an accessor."""
